@@ -151,7 +151,7 @@ class BlockDiagLinearOperator(BlockLinearOperator, metaclass=_MetaBlockDiagLinea
             return super()._solve(rhs, preconditioner, num_tridiag=num_tridiag)
         else:
             rhs = self._add_batch_dim(rhs)
-            res = self.base_linear_op._solve(rhs, preconditioner, num_tridiag=None)
+            res = self.base_linear_op._solve(rhs, preconditioner, num_tridiag=0)
             res = self._remove_batch_dim(res)
             return res
 
